@@ -262,6 +262,39 @@ def convertContainer (K : Codec) (r : Reader) (p : ConvParams) (f : Fmt) : Res C
 /-- the matching reader's view of the metadata -/
 def Container.readMeta (K : Codec) (c : Container) : Option Bytes := K.dec (metaComp c.fmt c.comp) c.metaBytes
 
+/-! ### `VersaTilesWriter::write_block`: appending blobs with de-duplication (versatiles/writer.rs:156-205)
+
+Blobs arrive in stream order and are appended to the file; the tile index of the block records a
+(block-relative offset, length) per tile.  A blob SHORTER THAN 1000 BYTES that was already written in
+this block is not written again: its index entry reuses the earlier range (`tile_hash_lookup`, a table
+that lives for one block only, because its ranges are relative to the block's start). -/
+
+structure BlockOut where
+  data : Bytes                          -- what this block appended (offset 0 = block start)
+  table : List (Bytes × (Nat × Nat))    -- `tile_hash_lookup`
+  ranges : List (Nat × Nat)             -- index entries in stream order
+
+def dedupLimit : Nat := 1000
+
+def writeBlobStep (st : BlockOut) (blob : Bytes) : BlockOut :=
+  if blob.length < dedupLimit then
+    match st.table.find? (fun e => e.1 == blob) with
+    | some e => { st with ranges := st.ranges ++ [e.2] }
+    | none =>
+      let r := (st.data.length, blob.length)
+      { data := st.data ++ blob, table := (blob, r) :: st.table, ranges := st.ranges ++ [r] }
+  else
+    { st with data := st.data ++ blob, ranges := st.ranges ++ [(st.data.length, blob.length)] }
+
+/-- one block, starting with the table `t0` (`[]` in the real writer) -/
+def writeBlockFrom (t0 : List (Bytes × (Nat × Nat))) (blobs : List Bytes) : BlockOut :=
+  blobs.foldl writeBlobStep { data := [], table := t0, ranges := [] }
+
+def writeBlock (blobs : List Bytes) : BlockOut := writeBlockFrom [] blobs
+
+/-- `read_range`: what a reader gets for an index entry -/
+def readRange (data : Bytes) (r : Nat × Nat) : Bytes := (data.drop r.1).take r.2
+
 /-! ### A concrete codec for the driver (and witness that the laws are satisfiable) -/
 
 def tag : Comp → UInt8
@@ -369,6 +402,7 @@ def toy : Codec where
 * `C04 rec <src> <dst> <enc|nil|cut> <payloadhex>` → same for `recompress`
 * `C04 e2e <fmt> <tileformat> <src> <keep|raw|gzip|brotli> <force>` → `declared=<comp>` | `rejected`
 * `C04 world <kind> <fmt> <src> <target> <force> <a> <b> <c>` → `declared=<comp>` | `rejected` | `failed`
+* `C04 dedup <len>:<id>,<len>:<id>,…` – one block of blobs (`len` copies of byte `id`) → `data=<n> ranges=<off>:<len>,…`
 * `C04 leaves <src> <keep|raw|gzip|brotli> <force>` → `declared=<comp>` (PMTiles with leaf directories)
 -/
 
@@ -467,6 +501,19 @@ def handle (args : List String) : String :=
       if kind == "fault" && !(convSteps r p).isEmpty then "failed"
       else if writerAccepts fmt "pbf" (declared r p) then s!"declared={(declared r p).name}" else "rejected"
     | _, _, _, _ => "bad-op"
+  | ["dedup", spec] =>
+    let blobs : Option (List Bytes) := (spec.splitOn ",").mapM fun t =>
+      match t.splitOn ":" with
+      | [l, i] => do
+        let l ← l.toNat?
+        let i ← i.toNat?
+        pure (List.replicate l (UInt8.ofNat i))
+      | _ => none
+    match blobs with
+    | some blobs =>
+      let o := writeBlock blobs
+      s!"data={o.data.length} ranges={",".intercalate (o.ranges.map fun r => s!"{r.1}:{r.2}")}"
+    | none => "bad-op"
   | ["leaves", s, t, f] =>
     -- a PMTiles conversion whose directory needs leaf directories: same decision as `e2e pmtiles pbf`
     let tgt : Option (Option Comp) := if t == "keep" then some none else (parseComp t).map some
